@@ -196,7 +196,7 @@ fn gen_request(r: &mut Rng, id: u64) -> ReqSpec {
     let version = if r.chance(9, 10) { 1 } else { *r.pick(&[0u8, 2, 255]) };
     let notify = match r.below(10) { 0 | 1 | 2 => 1u8, 3 => *r.pick(&[2u8, 255]), _ => 0 };
     let qfmt = if r.chance(9, 10) { 1u16 } else { *r.pick(&[0u16, 2, 65535]) };
-    let (bfmt, body): (u16, Vec<u8>) = match r.below(12) {
+    let (bfmt, body): (u16, Vec<u8>) = match r.below(13) {
         0 => (2, b"{\"a\":5,\"b\":\"x\"}".to_vec()),
         1 => (2, b"{\"a\":13,\"b\":\"y\"}".to_vec()),
         2 => (2, b"[1,2,3]".to_vec()),
@@ -213,6 +213,8 @@ fn gen_request(r: &mut Rng, id: u64) -> ReqSpec {
             _ => (*r.pick(&[2u16, 3]), b"[\"\xc3\x28\",1]".to_vec()),
         },
         10 => (*r.pick(&[1u16, 2, 3]), { let l = r.below(12) as usize; r.bytes(l) }),
+        // text-framed bodies that are JSON except for bytes that are not UTF-8 (every decoder must refuse them alike)
+        12 => (*r.pick(&[3u16, 3, 2]), r.pick(&[&b"{\"a\":7,\"b\":\"a\xffb\"}"[..], &b"{\"s\":\"\xed\xa0\x80\"}"[..], &b"\"\xf8\x88\x80\x80\x80\""[..], &b"{\"a\":1,\"b\":\"\xc0\xaf\"}"[..]]).to_vec()),
         _ => (*r.pick(&[0u16, 1, 2, 3]), Vec::new()),
     };
     let mut f = RawFrame::request(id, false, qfmt, &query, bfmt, &body);
@@ -586,6 +588,26 @@ fn run_sequence(out: &mut Out, sv: &Servers, probe: &Router, seqno: usize, reqs:
                     if m.header.ec == 0 && !(hh.id == r.h.id && hh.query_format == want_qf && hh.notify == 0 && hh.reserved == 0 && hh.version == 1 && m.query.is_empty()
                         && hh.body_length == m.body.len() as u64 && hh.length == 48 + m.body.len() as u64) {
                         out.oracle_fail("dispatch.builtin_response_shape", &format!("request id {}: a built-in handler's success response does not have the response_header_builder shape", r.h.id), &[format!("probe {}", hex(&r.query))]);
+                    }
+                }
+                // A handler has two entry points (borrowed view / owned message); which one a request reaches depends on the
+                // transport and on the route kind, so "the same request yields the same response fields on every
+                // transport" needs them to agree. And the built-in JSON handlers must refuse a body that is not JSON
+                // (decided here with the harness's own parse of the raw bytes) with ParseError, and decode one that is.
+                if let (Ok(a), Ok(b)) = (&v, &o) {
+                    let (sa, sb) = (hout_str(a), hout_str(b));
+                    if sa != sb && !r.query.starts_with(b"/custom") {
+                        out.oracle_fail("dispatch.entry_points_disagree", &format!("route {:?}, body format {}, body {}: handle_view gives {} but handle_with_ctx gives {}", path, r.h.body_format, hex(&r.body), &sa[..sa.len().min(90)], &sb[..sb.len().min(90)]), &[format!("probe {}", hex(&r.query))]);
+                    }
+                    if matches!(path, "/json" | "/json_b" | "/json_ctx" | "/json_ctx_b") && (r.h.body_format == 2 || r.h.body_format == 3) {
+                        let decodable = serde_json::from_slice::<Value>(&r.body).is_ok();
+                        for (which, res) in [("handle_view", a), ("handle_with_ctx", b)] {
+                            let accepted = match res { Ok(m) => m.header.ec != ErrorCode::ParseError as u32, Err(e) => e.to_error_code() != ErrorCode::ParseError };
+                            let wants_fail = serde_json::from_slice::<Value>(&r.body).ok().map(|v| v.get("fail").is_some()).unwrap_or(false);
+                            if accepted != decodable && !wants_fail {
+                                out.oracle_fail("dispatch.decode.undecodable_body", &format!("route {:?} via {}: body format {}, body {} is {} JSON but the handler {} it", path, which, r.h.body_format, hex(&r.body), if decodable { "valid" } else { "not" }, if accepted { "accepted" } else { "refused with ParseError" }), &[format!("probe {}", hex(&r.query))]);
+                            }
+                        }
                     }
                 }
                 match (v, o) {
